@@ -250,10 +250,10 @@ def path_data(draw, box, closed_bias=True, wild=False):
                 cur = [round(cur[0] + round(e[0] - cur[0], 2), 2), round(cur[1] + round(e[1] - cur[1], 2), 2)]
             else:
                 cur = [e[0], e[1]]
-        if draw(st.integers(0, 9)) == 0:
+        if draw(st.integers(0, 5)) == 0:
             # return to a hair's breadth of the subpath start (about one unit of the default rounding grid):
             # "almost closed" decisions must come out the same before and after rounding
-            d = draw(st.sampled_from([0.0004, 0.0006, 0.0011, 0.0012, 0.0014, -0.0013, 0.0049, 0.0051]))
+            d = draw(st.sampled_from([0.0004, 0.0011, 0.0012, 0.0014, -0.0013, -0.0011, 0.0049, 0.0051]))
             q = (start[0] + d, start[1]) if draw(st.booleans()) else (start[0], start[1] + d)
             out.append(f"L{q[0]:.4f},{q[1]:.4f}")
             cur = [q[0], q[1]]
@@ -731,11 +731,18 @@ def _add_twin(draw, cx, body):
     walk(body)
     if not sites:
         return
+    def dashed(n):
+        v = n["s"].get("stroke-dasharray", n["a"].get("stroke-dasharray"))
+        return v is not None and v != "none"
+
+    dsites = [sx for sx in sites if dashed(sx[0][sx[1]])]
+    if dsites and draw(st.booleans()):
+        sites = dsites
     kids, i = sites[draw(st.integers(0, len(sites) - 1))]
     twin = copy.deepcopy(kids[i])
     kinds = ["recolour", "hidden-before", "hidden-before"]
     if cfg.stroke:
-        kinds += ["dashoffset", "dashoffset", "linecap", "stroke-width"]
+        kinds += ["linecap", "stroke-width"] + (["dashoffset"] * 5 if dashed(twin) else ["dashoffset"])
     kind = draw(st.sampled_from(kinds))
     before = False
     if kind == "recolour":
